@@ -92,6 +92,21 @@ func (C15) Gen(r *simrt.RNG, tier string) core.Case {
 			w.Faults = append(w.Faults, world.Fault{Kind: "conv_error", Party: built[r.Intn(len(built))], Nth: 1 + r.Intn(2)})
 		}
 	}
+	// a struct-returning converter that now and then returns a nil struct pointer: the
+	// values behind it are zero values (nil for pointer types), also for built consumers
+	if r.Chance(1, 4) {
+		var cands []int
+		for pi, p := range w.Parties {
+			if pi > 0 && (p.OutForm == world.FormStruct || p.OutForm == world.FormPtrStruct) {
+				cands = append(cands, pi)
+			}
+		}
+		if len(cands) > 0 {
+			pi := cands[r.Intn(len(cands))]
+			w.Parties[pi].OutForm = world.FormPtrStruct
+			w.Faults = append(w.Faults, world.Fault{Kind: "nil_struct", Party: pi, Nth: 1 + r.Intn(3)})
+		}
+	}
 	return RCase{W: w}
 }
 
@@ -118,7 +133,7 @@ func c15Valid(w world.World) bool {
 		}
 	}
 	for _, f := range w.Faults {
-		if f.Kind != "conv_error" {
+		if f.Kind != "conv_error" && f.Kind != "nil_struct" {
 			return false
 		}
 	}
